@@ -27,7 +27,10 @@ def inv_clauses(rep, label):
 def value_spec(ctx, tag, maxlen, strings=False):
     kind = choice(f"{tag}_kind", ["scalar", "list", "array", "column"])
     n = 1 if kind == "scalar" else choice(f"{tag}_len", range(0, maxlen + 1))
-    if strings and choice(f"{tag}_text", [False, True]):
+    text = strings and choice(f"{tag}_text", [False, True] + (["sub"] if kind == "scalar" else []))
+    if text == "sub":
+        return ["strsub", 1, "ab"]      # a scalar that is an instance of a subclass of str (an enum member, a tagged string)
+    if text:
         c = symx.sym_str(tag)
         ctx.assume(z3.Not(c.is_empty()), note="broadcast values: floats or non-missing strings (any content, short or 52+ characters)")
         return [kind, n, symx.SymStr(c)]
